@@ -36,6 +36,8 @@ def run_server(asyncio_, plan, classns):
             tr.append((tag,) + a)
             if refuse:
                 raise exceptions.ConnectionRefusedError('no', 1)
+            if tag.startswith('ev') and len(a) == 1:
+                return 0                # an event without arguments is answered with a falsy value that is not None
             return ret
         if asyncio_:
             async def f(*a):
@@ -217,6 +219,8 @@ def run_client(asyncio_, plan):
     def handler(tag, ret=None):
         def body(*a):
             tr.append((tag,) + a)
+            if tag.startswith('ev') and len(a) == 0:
+                return 0                # an event without arguments is answered with a falsy value that is not None
             return ret
         if asyncio_:
             async def f(*a):
